@@ -200,12 +200,18 @@ def explore(ctx):
         sel_model, events, coq_events = {}, [], []
         slice0 = v.slice
         nselects = 0
+        forced = None
         try:
             for step in range(rng.randint(4, 30)):
-                kind = rng.choice(['click', 'click', 'click', 'pick', 'lasso', 'slice'] if three_d else ['click', 'click', 'click', 'pick', 'lasso'])
+                kind = rng.choice(['click', 'click', 'click', 'pick', 'lasso', 'lasso-one', 'slice'] if three_d else ['click', 'click', 'click', 'pick', 'lasso', 'lasso-one'])
                 b = rng.choice([1, 2, 3])
+                if forced is not None:
+                    kind, b = 'click', forced[0]
                 if kind == 'click':
-                    if rng.random() < 0.3:
+                    if forced is not None:
+                        x, y = forced[1], forced[2]
+                        forced = None
+                    elif rng.random() < 0.3:
                         x = rng.randint(0, nx - 1) + rng.choice([-0.5, 0.5, 0.49, -0.49])
                         y = rng.randint(0, ny - 1) + rng.choice([-0.5, 0.5, 0.49, -0.49])
                         x, y = min(max(x, -0.5), nx - 0.5001), min(max(y, -0.5), ny - 0.5001)
@@ -233,11 +239,25 @@ def explore(ctx):
                     pk = int(target.get_peak(subtree=True)[0][0]) if (three_d and v.slice_slider is not None) else None
                     events.append(['pick', b, inds])
                     coq_events.append('PickLine %d %s %s' % (b, cz(target.idx), copt(pk)))
-                elif kind == 'lasso':
+                elif kind in ('lasso', 'lasso-one'):
                     sc = rng.choice(scs)
                     xs, ys = np.asarray(cat['x_cen'], dtype=float), np.asarray(cat['y_cen'], dtype=float)
+                    one = None
+                    if kind == 'lasso-one':
+                        # a lasso drawn tightly around the catalog point of one branch; the next event is a click on one of
+                        # that branch's own pixels with the same button (the same structure, now with its subtree)
+                        rows = [k_ for k_, i_ in enumerate(cat['_idx']) if d[int(i_)].children and xs[k_] == xs[k_] and ys[k_] == ys[k_]]
+                        if rows:
+                            one = rng.choice(rows)
                     x0, x1 = sorted([rng.uniform(np.nanmin(xs) - 1, np.nanmax(xs) + 1) + 0.01379, rng.uniform(np.nanmin(xs) - 1, np.nanmax(xs) + 1) + 0.01379])
                     y0, y1 = sorted([rng.uniform(np.nanmin(ys) - 1, np.nanmax(ys) + 1) + 0.01379, rng.uniform(np.nanmin(ys) - 1, np.nanmax(ys) + 1) + 0.01379])
+                    if one is not None:
+                        x0, x1, y0, y1 = xs[one] - 1e-4, xs[one] + 1e-4, ys[one] - 1e-4, ys[one] + 1e-4
+                        lab_map = d.index_map[v.slice] if three_d else d.index_map
+                        own = np.argwhere(np.asarray(lab_map) == int(cat['_idx'][one]))
+                        if len(own):
+                            iy_, ix_ = own[rng.randrange(len(own))]
+                            forced = (b, float(ix_), float(iy_))
                     verts = [(x0, y0), (x1, y0), (x1, y1), (x0, y1), (x0, y0)]
                     sc.lasso = object()
                     sc.callback_generator(types.SimpleNamespace(button=b))(verts)
